@@ -547,7 +547,10 @@ class MapTypeIO(GraphSONTypeIO):
             itertools.islice(a, 0, None, 2),
             itertools.islice(b, 1, None, 2)
         ):
-            out[reader.deserialize(key)] = reader.deserialize(val)
+            key = reader.deserialize(key)
+            if isinstance(key, bytearray):
+                key = bytes(key)  # a blob is read as (unhashable) bytearray
+            out[key] = reader.deserialize(val)
         return out
 
 
@@ -598,7 +601,11 @@ class SetTypeIO(GraphSONTypeIO):
     def deserialize(cls, value, reader=None):
         lst = [reader.deserialize(obj) for obj in value]
 
-        s = set(lst)
+        try:
+            s = set(lst)
+        except TypeError:
+            # unhashable elements (blobs are read as bytearray): a list, as for the numerical case below
+            return lst
         if len(s) != len(lst):
             log.warning("Coercing g:Set to list due to numerical values returned by Java. "
                         "See TINKERPOP-1844 for details.")
